@@ -32,6 +32,13 @@ impl<'a, I: crate::Input> CountedInput<'a, I> {
 	pub fn count(&self) -> u64 {
 		self.counter
 	}
+
+	/// Verification hook: a `CountedInput` whose counter starts at an arbitrary value.
+	#[cfg(any(kani, parity_scale_codec_verif))]
+	#[doc(hidden)]
+	pub fn __verif_with_count(input: &'a mut I, counter: u64) -> Self {
+		Self { input, counter }
+	}
 }
 
 impl<I: crate::Input> crate::Input for CountedInput<'_, I> {
